@@ -23,6 +23,7 @@
    created the failing thunk / deferred statement (the theorem says: some statement of the right stanza), and the
    node KIND / source position shown for the node (the model identifies nodes by index). *)
 From TSG Require Import Model.Strict Model.Lazy Proofs.StrictMeta Proofs.ErrorCtx Proofs.Captures Proofs.ErrorCtxValid.
+From TSG Require Import Model.ErrRender Proofs.ParseErr Proofs.ErrRender.
 
 (* strict: one block execution (stanza st on match m whose full-match node is n) *)
 Theorem strict_error_ctx : forall {rx : Type} t fl cfg glob (regexes : list rx) find call fuel st m s p e n rest,
@@ -208,3 +209,215 @@ Proof.
          (sinit []), (polls0 None).
   split; [vm_compute; reflexivity|]. split; [apply U_base; exact I|]. split; reflexivity.
 Qed.
+
+(* ================================================================================================================
+   RENDERING (last sentence of the property: "pretty rendering of the error shows the cited DSL and source lines").
+   Model/ErrRender.v models /repo/src/execution/error.rs: the chain the Rust code sees (contexts outermost first —
+   `Context::Statement` with one or two `StatementContext`s, or `Context::Other` — and the Display of the innermost
+   error), `render_pretty` = `ExecutionError::display_pretty` (fmt_entry / fmt_pretty / Excerpt with indent 7),
+   `render_plain` = the plain Display.  The wording of the messages is a parameter (`wording`, `wording_plain`): all
+   theorems hold for ANY wording.  Stream C20r compares both texts character by character with the implementation.
+
+   (a) TOTALITY.  `render_pretty` and `render_plain` are structural recursions on the chain without fuel and without an
+   outcome type: there is no panic site to model.  The only partial operation of the Rust code is
+   `source.lines().nth(row)` inside `Excerpt::from_source`; when the row does not exist the excerpt is the header line
+   and "<missing source>" (`excerpt_missing_source`) — in particular the location is still cited — and otherwise it is
+   the header, the numbered line and a caret line with one caret, or none when the column is not inside the line
+   (`excerpt_present`).  The columns are only used as repeat counts, never as slice bounds.
+   `contains` (the executable "occurs in") means what it should: `contains_spec`. *)
+
+Theorem contains_spec : forall n h, contains n h = true <-> exists x y, h = x ++ n ++ y.
+Proof. intros n h. split; [apply contains_sub|apply sub_contains]. Qed.
+
+(* the generalised excerpt is the one of C18 at indent 0 *)
+Theorem excerpt_ind_generalises : forall path src row cs ce, excerpt_ind 0 path src row cs ce = excerpt path src row cs ce.
+Proof. exact excerpt_ind_0. Qed.
+
+Theorem excerpt_missing_source : forall ind path src row cs ce,
+  (length (lines src) <= N.to_nat row)%nat ->
+  excerpt_ind ind path src row cs ce = spaces ind ++ cite path row cs ++ [10] ++ spaces ind ++ missing_source ++ [10].
+Proof. intros * H. apply excerpt_ind_missing, nth_error_None, H. Qed.
+
+Theorem excerpt_present : forall ind path src r c,
+  (N.to_nat r < length (lines src))%nat ->
+  exists l, nth_error (lines src) (N.to_nat r) = Some l /\
+    excerpt_loc ind path src (r, c)
+    = spaces ind ++ cite path r c ++ [10]
+      ++ spaces ind ++ dec (r + 1) ++ [32;124;32] ++ l ++ [10]
+      ++ spaces ind ++ spaces (gutter_width r) ++ [32;124;32] ++ spaces c ++ (if c <? utf8_bytes l then [94] else []) ++ [10].
+Proof.
+  intros * H. destruct (nth_error (lines src) (N.to_nat r)) as [l|] eqn:E.
+  - exists l. split; [reflexivity|]. apply excerpt_loc_present, E.
+  - apply nth_error_None in E. lia.
+Qed.
+
+(* (b) EVERY statement context of the chain (at any depth of the chain, both statements of a conflict) is cited three
+   times: "tsg_path:row+1:col+1:" for the statement and for the stanza, "src_path:row+1:col+1:" for the matched node *)
+Theorem render_pretty_cites : forall w tsg_path tsg src_path src ch c,
+  In c (all_stmt_ctxs (ch_ctxs ch)) ->
+  let out := render_pretty w tsg_path tsg src_path src ch in
+  contains (cite tsg_path (fst (sx_stmt_loc c)) (snd (sx_stmt_loc c))) out = true /\
+  contains (cite tsg_path (fst (sx_stanza_loc c)) (snd (sx_stanza_loc c))) out = true /\
+  contains (cite src_path (fst (sx_src_loc c)) (snd (sx_src_loc c))) out = true.
+Proof. intros w tp t sp s ch c H. exact (render_pretty_cites_lemma w tp t sp s ch c H). Qed.
+
+(* (c) ... and the cited lines are shown: whenever the row of the statement / the stanza is a line of the given DSL text,
+   resp. the row of the node a line of the given source text, the text of that line occurs in the output *)
+Theorem render_pretty_shows_lines : forall w tsg_path tsg src_path src ch c,
+  In c (all_stmt_ctxs (ch_ctxs ch)) ->
+  let out := render_pretty w tsg_path tsg src_path src ch in
+  (forall l, nth_error (lines tsg) (N.to_nat (fst (sx_stmt_loc c))) = Some l -> contains l out = true) /\
+  (forall l, nth_error (lines tsg) (N.to_nat (fst (sx_stanza_loc c))) = Some l -> contains l out = true) /\
+  (forall l, nth_error (lines src) (N.to_nat (fst (sx_src_loc c))) = Some l -> contains l out = true).
+Proof. intros w tp t sp s ch c H. exact (render_pretty_shows_lines_lemma w tp t sp s ch c H). Qed.
+
+(* the statement itself (its Display) and the kind of the matched node are shown too *)
+Theorem render_pretty_shows_stmt : forall w tsg_path tsg src_path src ch c,
+  In c (all_stmt_ctxs (ch_ctxs ch)) ->
+  contains (sx_stmt c) (render_pretty w tsg_path tsg src_path src ch) = true /\
+  contains (sx_kind c) (render_pretty w tsg_path tsg src_path src ch) = true.
+Proof. intros w tp t sp s ch c H. exact (render_pretty_shows_stmt_lemma w tp t sp s ch c H). Qed.
+
+(* the executable form used by the correspondence verdict: code 63 of stream C20r cannot occur *)
+Theorem render_pretty_shows_ctx : forall w tsg_path tsg src_path src ch,
+  forallb (shows_ctx tsg_path tsg src_path src (render_pretty w tsg_path tsg src_path src ch)) (all_stmt_ctxs (ch_ctxs ch)) = true.
+Proof. exact shows_ctx_model. Qed.
+
+(* (d) ORDER.  The output is the concatenation of one entry per context in chain order, OUTERMOST FIRST, numbered
+   0, 1, 2, .., followed by the entry of the innermost error, whose number is the number of contexts; an entry (other
+   than that of an empty `Statement` vector, which prints nothing) starts with its number right-aligned in 5 columns
+   and ": ", the number being the decimal numeral (`undec (dec i) = i`); the entry of a statement context continues with
+   the first phrase and the statement; the further statement of a conflict does NOT get a number of its own. *)
+Theorem render_pretty_entries : forall w tsg_path tsg src_path src ch,
+  render_pretty w tsg_path tsg src_path src ch
+  = concat (map (fun p => render_ctx w tsg_path tsg src_path src (fst p) (snd p)) (number_from 0 (ch_ctxs ch)))
+    ++ entry_head (N.of_nat (length (ch_ctxs ch))) ++ ch_cause ch ++ [10].
+Proof. exact render_pretty_entries_lemma. Qed.
+
+Theorem render_entry_head : forall w tsg_path tsg src_path src i c,
+  c <> RStmts [] -> is_prefix (entry_head i) (render_ctx w tsg_path tsg src_path src i c) = true.
+Proof. exact render_ctx_head_lemma. Qed.
+
+Theorem render_entry_stmt_head : forall w tsg_path tsg src_path src i d r,
+  is_prefix (entry_head i ++ w_first w ++ sx_stmt d ++ [10]) (render_ctx w tsg_path tsg src_path src i (RStmts (d :: r))) = true.
+Proof. exact render_ctx_stmt_head_lemma. Qed.
+
+Theorem entry_head_numeral : forall i,
+  entry_head i = spaces (5 - N.of_nat (length (dec i))) ++ dec i ++ [58;32] /\ undec (dec i) = i.
+Proof. intros i. split; [apply entry_head_eq|apply dec_correct]. Qed.
+
+(* the plain Display (one line) names, for every statement context, the statement, the stanza position, the node kind and
+   the node position "(row+1, col+1)", and ends with the innermost error *)
+Theorem render_plain_shows : forall w ch c,
+  In c (all_stmt_ctxs (ch_ctxs ch)) ->
+  contains (sx_stmt c) (render_plain w ch) = true /\
+  contains (show_loc (sx_stanza_loc c)) (render_plain w ch) = true /\
+  contains (sx_kind c) (render_plain w ch) = true /\
+  contains (show_loc (sx_src_loc c)) (render_plain w ch) = true.
+Proof. exact render_plain_shows_lemma. Qed.
+
+Theorem render_plain_cause : forall w ch, exists x, render_plain w ch = x ++ ch_cause ch.
+Proof. exact render_plain_cause_lemma. Qed.
+
+(* ---- non-vacuity: two REAL chains (the expected texts below are the output of the implementation, not of the model).
+   A. strict run of
+     (module) @_mod {
+       scan "é" {
+         "é" {
+           let x = (plus "a" 1)
+         }
+       }
+     }
+   on `pass`, rendered with an EMPTY source text and the paths r.tsg / é.py:
+         0: Error executing statement let x = (plus "a" 1) at (4, 7)
+            r.tsg:4:7:
+            4 |       let x = (plus "a" 1)
+              |       ^
+            in stanza
+            r.tsg:1:1:
+            1 | (module) @_mod {
+              | ^
+            matching (module) node
+            é.py:1:1:
+            <missing source>
+         1: matching é with arm "é"
+         2: Expected an integer got a
+   B. lazy run (conflict of two statements, one inside a scan arm) of
+     (module) @_mod {
+       node nd
+       scan "é" {
+         "é" {
+           attr (nd) kk = 1
+         }
+       }
+       attr (nd) kk = 2
+     }
+   on `pass`, paths `my rules/r.tsg` / `src/é.py`:
+         0: Error executing statement attr (nd) kk = 1 at (5, 7)
+            my rules/r.tsg:5:7:
+            5 |       attr (nd) kk = 1
+              |       ^
+            in stanza
+            my rules/r.tsg:1:1:
+            1 | (module) @_mod {
+              | ^
+            matching (module) node
+            src/é.py:1:1:
+            1 | pass
+              | ^
+          > and executing statement attr (nd) kk = 2 at (8, 3)
+            my rules/r.tsg:8:3:
+            8 |   attr (nd) kk = 2
+              |   ^
+            in stanza
+            my rules/r.tsg:1:1:
+            1 | (module) @_mod {
+              | ^
+            matching (module) node
+            src/é.py:1:1:
+            1 | pass
+              | ^
+         1: Duplicate attribute kk on [graph node 0] *)
+Definition exA_tsg : str := [40;109;111;100;117;108;101;41;32;64;95;109;111;100;32;123;10;32;32;115;99;97;110;32;34;233;34;32;123;10;32;32;32;32;34;233;34;32;123;10;32;32;32;32;32;32;108;101;116;32;120;32;61;32;40;112;108;117;115;32;34;97;34;32;49;41;10;32;32;32;32;125;10;32;32;125;10;125;10].
+Definition exA_chain : chain :=
+  {| ch_ctxs := [RStmts [{| sx_stmt := [108;101;116;32;120;32;61;32;40;112;108;117;115;32;34;97;34;32;49;41;32;97;116;32;40;52;44;32;55;41]; sx_stmt_loc := (3, 6); sx_stanza_loc := (0, 0); sx_src_loc := (0, 0); sx_kind := [109;111;100;117;108;101] |}];
+                 ROther [109;97;116;99;104;105;110;103;32;233;32;119;105;116;104;32;97;114;109;32;34;233;34]];
+     ch_cause := [69;120;112;101;99;116;101;100;32;97;110;32;105;110;116;101;103;101;114;32;103;111;116;32;97] |}.
+Example render_pretty_example_A :
+  render_pretty default_wording [114;46;116;115;103] exA_tsg [233;46;112;121] [] exA_chain
+  = [32;32;32;32;48;58;32;69;114;114;111;114;32;101;120;101;99;117;116;105;110;103;32;115;116;97;116;101;109;101;110;116;32;108;101;116;32;120;32;61;32;40;112;108;117;115;32;34;97;34;32;49;41;32;97;116;32;40;52;44;32;55;41;10;32;32;32;32;32;32;32;114;46;116;115;103;58;52;58;55;58;10;32;32;32;32;32;32;32;52;32;124;32;32;32;32;32;32;32;108;101;116;32;120;32;61;32;40;112;108;117;115;32;34;97;34;32;49;41;10;32;32;32;32;32;32;32;32;32;124;32;32;32;32;32;32;32;94;10;32;32;32;32;32;32;32;105;110;32;115;116;97;110;122;97;10;32;32;32;32;32;32;32;114;46;116;115;103;58;49;58;49;58;10;32;32;32;32;32;32;32;49;32;124;32;40;109;111;100;117;108;101;41;32;64;95;109;111;100;32;123;10;32;32;32;32;32;32;32;32;32;124;32;94;10;32;32;32;32;32;32;32;109;97;116;99;104;105;110;103;32;40;109;111;100;117;108;101;41;32;110;111;100;101;10;32;32;32;32;32;32;32;233;46;112;121;58;49;58;49;58;10;32;32;32;32;32;32;32;60;109;105;115;115;105;110;103;32;115;111;117;114;99;101;62;10;32;32;32;32;49;58;32;109;97;116;99;104;105;110;103;32;233;32;119;105;116;104;32;97;114;109;32;34;233;34;10;32;32;32;32;50;58;32;69;120;112;101;99;116;101;100;32;97;110;32;105;110;116;101;103;101;114;32;103;111;116;32;97;10]
+  /\ render_plain default_wording_plain exA_chain
+  = [69;114;114;111;114;32;101;120;101;99;117;116;105;110;103;32;108;101;116;32;120;32;61;32;40;112;108;117;115;32;34;97;34;32;49;41;32;97;116;32;40;52;44;32;55;41;32;105;110;32;115;116;97;110;122;97;32;97;116;32;40;49;44;32;49;41;32;109;97;116;99;104;105;110;103;32;40;109;111;100;117;108;101;41;32;110;111;100;101;32;97;116;32;40;49;44;32;49;41;46;32;67;97;117;115;101;100;32;98;121;58;32;109;97;116;99;104;105;110;103;32;233;32;119;105;116;104;32;97;114;109;32;34;233;34;46;32;67;97;117;115;101;100;32;98;121;58;32;69;120;112;101;99;116;101;100;32;97;110;32;105;110;116;101;103;101;114;32;103;111;116;32;97].
+Proof. split; vm_compute; reflexivity. Qed.
+
+(* the hypotheses of the theorems are satisfiable and `contains` is not trivially true: the statement is cited at
+   row 3, column 6 ("r.tsg:4:7:") and not at column 7; the source row does not exist ("<missing source>") *)
+Example render_pretty_cites_nonvacuous :
+  let out := render_pretty default_wording [114;46;116;115;103] exA_tsg [233;46;112;121] [] exA_chain in
+  length (all_stmt_ctxs (ch_ctxs exA_chain)) = 1%nat /\
+  contains (cite [114;46;116;115;103] 3 6) out = true /\ contains (cite [114;46;116;115;103] 3 7) out = false /\
+  nth_error (lines exA_tsg) 3 = Some [32;32;32;32;32;32;108;101;116;32;120;32;61;32;40;112;108;117;115;32;34;97;34;32;49;41] /\
+  contains [32;32;32;32;32;32;108;101;116;32;120;32;61;32;40;112;108;117;115;32;34;97;34;32;49;41] out = true /\
+  nth_error (lines []) 0 = None /\ contains missing_source out = true.
+Proof. vm_compute. repeat split. Qed.
+
+Definition exB_tsg : str := [40;109;111;100;117;108;101;41;32;64;95;109;111;100;32;123;10;32;32;110;111;100;101;32;110;100;10;32;32;115;99;97;110;32;34;233;34;32;123;10;32;32;32;32;34;233;34;32;123;10;32;32;32;32;32;32;97;116;116;114;32;40;110;100;41;32;107;107;32;61;32;49;10;32;32;32;32;125;10;32;32;125;10;32;32;97;116;116;114;32;40;110;100;41;32;107;107;32;61;32;50;10;125;10].
+Definition exB_chain : chain :=
+  {| ch_ctxs := [RStmts [{| sx_stmt := [97;116;116;114;32;40;110;100;41;32;107;107;32;61;32;49;32;97;116;32;40;53;44;32;55;41]; sx_stmt_loc := (4, 6); sx_stanza_loc := (0, 0); sx_src_loc := (0, 0); sx_kind := [109;111;100;117;108;101] |};
+                         {| sx_stmt := [97;116;116;114;32;40;110;100;41;32;107;107;32;61;32;50;32;97;116;32;40;56;44;32;51;41]; sx_stmt_loc := (7, 2); sx_stanza_loc := (0, 0); sx_src_loc := (0, 0); sx_kind := [109;111;100;117;108;101] |}]];
+     ch_cause := [68;117;112;108;105;99;97;116;101;32;97;116;116;114;105;98;117;116;101;32;107;107;32;111;110;32;91;103;114;97;112;104;32;110;111;100;101;32;48;93] |}.
+Example render_pretty_example_B :
+  render_pretty default_wording [109;121;32;114;117;108;101;115;47;114;46;116;115;103] exB_tsg [115;114;99;47;233;46;112;121] [112;97;115;115;10] exB_chain
+  = [32;32;32;32;48;58;32;69;114;114;111;114;32;101;120;101;99;117;116;105;110;103;32;115;116;97;116;101;109;101;110;116;32;97;116;116;114;32;40;110;100;41;32;107;107;32;61;32;49;32;97;116;32;40;53;44;32;55;41;10;32;32;32;32;32;32;32;109;121;32;114;117;108;101;115;47;114;46;116;115;103;58;53;58;55;58;10;32;32;32;32;32;32;32;53;32;124;32;32;32;32;32;32;32;97;116;116;114;32;40;110;100;41;32;107;107;32;61;32;49;10;32;32;32;32;32;32;32;32;32;124;32;32;32;32;32;32;32;94;10;32;32;32;32;32;32;32;105;110;32;115;116;97;110;122;97;10;32;32;32;32;32;32;32;109;121;32;114;117;108;101;115;47;114;46;116;115;103;58;49;58;49;58;10;32;32;32;32;32;32;32;49;32;124;32;40;109;111;100;117;108;101;41;32;64;95;109;111;100;32;123;10;32;32;32;32;32;32;32;32;32;124;32;94;10;32;32;32;32;32;32;32;109;97;116;99;104;105;110;103;32;40;109;111;100;117;108;101;41;32;110;111;100;101;10;32;32;32;32;32;32;32;115;114;99;47;233;46;112;121;58;49;58;49;58;10;32;32;32;32;32;32;32;49;32;124;32;112;97;115;115;10;32;32;32;32;32;32;32;32;32;124;32;94;10;32;32;32;32;32;62;32;97;110;100;32;101;120;101;99;117;116;105;110;103;32;115;116;97;116;101;109;101;110;116;32;97;116;116;114;32;40;110;100;41;32;107;107;32;61;32;50;32;97;116;32;40;56;44;32;51;41;10;32;32;32;32;32;32;32;109;121;32;114;117;108;101;115;47;114;46;116;115;103;58;56;58;51;58;10;32;32;32;32;32;32;32;56;32;124;32;32;32;97;116;116;114;32;40;110;100;41;32;107;107;32;61;32;50;10;32;32;32;32;32;32;32;32;32;124;32;32;32;94;10;32;32;32;32;32;32;32;105;110;32;115;116;97;110;122;97;10;32;32;32;32;32;32;32;109;121;32;114;117;108;101;115;47;114;46;116;115;103;58;49;58;49;58;10;32;32;32;32;32;32;32;49;32;124;32;40;109;111;100;117;108;101;41;32;64;95;109;111;100;32;123;10;32;32;32;32;32;32;32;32;32;124;32;94;10;32;32;32;32;32;32;32;109;97;116;99;104;105;110;103;32;40;109;111;100;117;108;101;41;32;110;111;100;101;10;32;32;32;32;32;32;32;115;114;99;47;233;46;112;121;58;49;58;49;58;10;32;32;32;32;32;32;32;49;32;124;32;112;97;115;115;10;32;32;32;32;32;32;32;32;32;124;32;94;10;32;32;32;32;49;58;32;68;117;112;108;105;99;97;116;101;32;97;116;116;114;105;98;117;116;101;32;107;107;32;111;110;32;91;103;114;97;112;104;32;110;111;100;101;32;48;93;10]
+  /\ render_plain default_wording_plain exB_chain
+  = [69;114;114;111;114;32;101;120;101;99;117;116;105;110;103;32;97;116;116;114;32;40;110;100;41;32;107;107;32;61;32;49;32;97;116;32;40;53;44;32;55;41;32;105;110;32;115;116;97;110;122;97;32;97;116;32;40;49;44;32;49;41;32;109;97;116;99;104;105;110;103;32;40;109;111;100;117;108;101;41;32;110;111;100;101;32;97;116;32;40;49;44;32;49;41;32;97;110;100;32;101;120;101;99;117;116;105;110;103;32;97;116;116;114;32;40;110;100;41;32;107;107;32;61;32;50;32;97;116;32;40;56;44;32;51;41;32;105;110;32;115;116;97;110;122;97;32;97;116;32;40;49;44;32;49;41;32;109;97;116;99;104;105;110;103;32;40;109;111;100;117;108;101;41;32;110;111;100;101;32;97;116;32;40;49;44;32;49;41;46;32;67;97;117;115;101;100;32;98;121;58;32;68;117;112;108;105;99;97;116;101;32;97;116;116;114;105;98;117;116;101;32;107;107;32;111;110;32;91;103;114;97;112;104;32;110;111;100;101;32;48;93].
+Proof. split; vm_compute; reflexivity. Qed.
+
+(* the correspondence verdict distinguishes: the real text agrees (0), a text with another column does not (61) *)
+Example c20r_verdict_nonvacuous :
+  let real := render_pretty default_wording [109;121;32;114;117;108;101;115;47;114;46;116;115;103] exB_tsg [115;114;99;47;233;46;112;121] [112;97;115;115;10] exB_chain in
+  let plain := render_plain default_wording_plain exB_chain in
+  c20r_verdict default_wording default_wording_plain [109;121;32;114;117;108;101;115;47;114;46;116;115;103] exB_tsg [115;114;99;47;233;46;112;121] [112;97;115;115;10] exB_chain real plain = 0 /\
+  c20r_verdict default_wording default_wording_plain [109;121;32;114;117;108;101;115;47;114;46;116;115;103] exB_tsg [115;114;99;47;233;46;112;121] [112;97;115;115;10] exB_chain (real ++ [32]) plain = 61 /\
+  c20r_verdict default_wording default_wording_plain [109;121;32;114;117;108;101;115;47;114;46;116;115;103] exB_tsg [115;114;99;47;233;46;112;121] [112;97;115;115;10] exB_chain real (32 :: plain) = 62.
+Proof. vm_compute. repeat split. Qed.
